@@ -2,6 +2,7 @@ package nc
 
 import (
 	"go/token"
+	"sort"
 
 	"golang.org/x/tools/go/ssa"
 )
@@ -329,9 +330,10 @@ func nilOutcomeRefuted(ip *IterPath, sums *Summaries) bool {
 }
 
 // checkEveryTarget (C05.3, connect.every-target): in the loop that holds the gene insertion, an
-// iteration ends in one of three ways only - the skip flag was true (link exists), the insertion
-// ran, or the function returned.
-func (r *Run) checkEveryTarget(sums *Summaries, fn *ssa.Function, loops []*Loop, insert ssa.CallInstruction, skip ssa.Value) {
+// iteration ends in one of three ways only - the skip flag was true (link exists) resp. the
+// existing-link scan was left on a hit edge (sg, the form without a flag), the insertion ran, or the
+// function returned.
+func (r *Run) checkEveryTarget(sums *Summaries, fn *ssa.Function, loops []*Loop, insert ssa.CallInstruction, skip ssa.Value, sg *scanGuard) {
 	p := r.P
 	tl := InnermostLoop(loops, insert.Block())
 	if tl == nil {
@@ -343,7 +345,10 @@ func (r *Run) checkEveryTarget(sums *Summaries, fn *ssa.Function, loops []*Loop,
 		r.Undecided("connect.every-target", p.Pos(insert.Pos()), "too many paths through one iteration of the target loop")
 		return
 	}
-	skipWeb := phiWeb(skip)
+	var skipWeb *phiWebT
+	if skip != nil {
+		skipWeb = phiWeb(skip)
+	}
 	var witness *IterPath
 	for _, ip := range paths {
 		r.PathsExplored++
@@ -351,9 +356,19 @@ func (r *Run) checkEveryTarget(sums *Summaries, fn *ssa.Function, loops []*Loop,
 			continue
 		}
 		skipped := false
-		for _, g := range ip.Conds {
-			if f, w, ok := boolFlagOf(g.Cond); ok && g.True == w {
-				if ph, isPhi := f.(*ssa.Phi); isPhi && (f == skip || skipWeb.Phis[ph]) {
+		if skipWeb != nil {
+			for _, g := range ip.Conds {
+				if f, w, ok := boolFlagOf(g.Cond); ok && g.True == w {
+					if ph, isPhi := f.(*ssa.Phi); isPhi && (f == skip || skipWeb.Phis[ph]) {
+						skipped = true
+					}
+				}
+			}
+		}
+		if sg != nil {
+			// flag-free form: the iteration left the existing-link scan on one of its hit edges
+			for _, h := range sg.Hits {
+				if ip.takesEdge(h.From, h.To) {
 					skipped = true
 				}
 			}
@@ -370,4 +385,393 @@ func (r *Run) checkEveryTarget(sums *Summaries, fn *ssa.Function, loops []*Loop,
 	}
 	r.Check(witness == nil, "connect.every-target", p.Pos(insert.Pos()), "every target without an existing link gets a gene (or the mutation is abandoned by returning)",
 		"a target for which no link sensor->target exists can be passed over without a gene being created and inserted (one iteration of the target loop that neither finds the link, nor inserts, nor returns)", path...)
+}
+
+// ---------------------------------------------------------------------------
+// Second robustness round: value identity of repeated loads, scans in any
+// loop form, and "search, then act" protocols written without a flag
+// (labelled continue / early return out of the scan).
+
+// memPure: executing the instruction cannot change memory that existed before it (it may allocate).
+func memPure(in ssa.Instruction) bool {
+	switch x := in.(type) {
+	case *ssa.UnOp:
+		return x.Op != token.ARROW
+	case *ssa.BinOp, *ssa.FieldAddr, *ssa.IndexAddr, *ssa.Field, *ssa.Index, *ssa.Phi, *ssa.If, *ssa.Jump,
+		*ssa.Convert, *ssa.ChangeType, *ssa.ChangeInterface, *ssa.Slice, *ssa.Extract, *ssa.TypeAssert, *ssa.MakeInterface,
+		*ssa.Lookup, *ssa.Alloc, *ssa.MakeSlice, *ssa.MakeMap, *ssa.DebugRef, *ssa.Return:
+		_ = x
+		return true
+	case *ssa.Call:
+		if b, ok := x.Call.Value.(*ssa.Builtin); ok && (b.Name() == "len" || b.Name() == "cap") {
+			return true
+		}
+	}
+	return false
+}
+
+// loadChain: v is a load whose address is built from field/index steps over parameters, constants and
+// further loads; returns the loads involved (v included). ok is false for anything else.
+func loadChain(v ssa.Value) (loads []*ssa.UnOp, ok bool) {
+	u, isU := v.(*ssa.UnOp)
+	if !isU || u.Op != token.MUL {
+		return nil, false
+	}
+	loads = append(loads, u)
+	addr := u.X
+	for depth := 0; depth < 12; depth++ {
+		switch a := addr.(type) {
+		case *ssa.FieldAddr:
+			addr = a.X
+		case *ssa.IndexAddr:
+			addr = a.X
+		case *ssa.Parameter:
+			return loads, true
+		case *ssa.UnOp:
+			if a.Op != token.MUL {
+				return nil, false
+			}
+			loads = append(loads, a)
+			addr = a.X
+		default:
+			return nil, false
+		}
+	}
+	return nil, false
+}
+
+// sameAddrShape: the two address computations perform the same steps (same fields, the same SSA
+// values as indices) starting from the same parameter, reading the intermediate pointers by loads.
+func sameLoadShape(x, y ssa.Value) bool {
+	for depth := 0; depth < 24; depth++ {
+		if x == y {
+			return true
+		}
+		switch a := x.(type) {
+		case *ssa.UnOp:
+			b, ok := y.(*ssa.UnOp)
+			if !ok || a.Op != token.MUL || b.Op != token.MUL {
+				return false
+			}
+			x, y = a.X, b.X
+		case *ssa.FieldAddr:
+			b, ok := y.(*ssa.FieldAddr)
+			if !ok || a.Field != b.Field {
+				return false
+			}
+			x, y = a.X, b.X
+		case *ssa.IndexAddr:
+			b, ok := y.(*ssa.IndexAddr)
+			if !ok {
+				return false
+			}
+			if a.Index != b.Index {
+				ka, oka := constInt(a.Index)
+				kb, okb := constInt(b.Index)
+				if !oka || !okb || ka != kb {
+					return false
+				}
+			}
+			x, y = a.X, b.X
+		default:
+			return false
+		}
+	}
+	return false
+}
+
+// sameLoad: a and b are loads of the same memory location (same access path from a parameter, the
+// same SSA values as indices), a is evaluated before b whenever b is evaluated, and no instruction
+// that can write memory lies on any way from a to b. Then, when b is evaluated, it yields the value
+// a yielded at its latest evaluation:
+//   - the blocks between the latest execution of a and the execution of b are all in the region checked
+//     (blocks reachable from a's block and reaching b's block without re-entering a's block), so every
+//     location read by either chain is unchanged;
+//   - an index value shared by both chains is defined in a block dominating a's block; every path from
+//     that definition to b passes a (a's block dominates b's), so the latest a saw the same instance.
+func sameLoad(a, b ssa.Value) bool {
+	a, b = stripCT(a), stripCT(b)
+	if a == b {
+		return true
+	}
+	la, okA := loadChain(a)
+	lb, okB := loadChain(b)
+	if !okA || !okB || !sameLoadShape(a, b) {
+		return false
+	}
+	A, B := la[0].Block(), lb[0].Block()
+	if A == nil || B == nil {
+		return false
+	}
+	for _, l := range la {
+		if l.Block() != A {
+			return false
+		}
+	}
+	for _, l := range lb {
+		if l.Block() != B {
+			return false
+		}
+	}
+	// every value used as an index is defined outside or before the first load of a
+	first := instrIndex(la[len(la)-1])
+	for _, l := range la {
+		if i := instrIndex(l); i < first {
+			first = i
+		}
+	}
+	lastB := instrIndex(lb[0])
+	if A == B {
+		if first >= lastB {
+			return false
+		}
+		for i := first; i < lastB; i++ {
+			if !memPure(A.Instrs[i]) {
+				return false
+			}
+		}
+		return true
+	}
+	if !A.Dominates(B) {
+		return false
+	}
+	for i := first; i < len(A.Instrs); i++ {
+		if !memPure(A.Instrs[i]) {
+			return false
+		}
+	}
+	// forward from A without re-entering A
+	fwd := map[*ssa.BasicBlock]bool{}
+	stack := append([]*ssa.BasicBlock{}, A.Succs...)
+	for len(stack) > 0 {
+		x := stack[len(stack)-1]
+		stack = stack[:len(stack)-1]
+		if x == A || fwd[x] {
+			continue
+		}
+		fwd[x] = true
+		stack = append(stack, x.Succs...)
+	}
+	// backward from B without entering A
+	bwd := map[*ssa.BasicBlock]bool{}
+	stack = append([]*ssa.BasicBlock{}, B.Preds...)
+	for len(stack) > 0 {
+		x := stack[len(stack)-1]
+		stack = stack[:len(stack)-1]
+		if x == A || bwd[x] {
+			continue
+		}
+		bwd[x] = true
+		stack = append(stack, x.Preds...)
+	}
+	for x := range fwd {
+		if !bwd[x] {
+			continue
+		}
+		// x lies between a and b (x == B here means B can be re-executed without passing a: all of it counts)
+		for _, in := range x.Instrs {
+			if !memPure(in) {
+				return false
+			}
+		}
+	}
+	for i := 0; i < lastB; i++ {
+		if !memPure(B.Instrs[i]) {
+			return false
+		}
+	}
+	return true
+}
+
+// boolFieldCondSame is boolFieldCond where the object the condition reads may be named by another
+// load of the same location as v (see sameLoad) - `if xs[i].F { continue }; xs[i].F = ...`.
+func boolFieldCondSame(tm *Termer, g Guard, v ssa.Value, want bool, path ...string) bool {
+	if boolFieldCond(tm, g, v, want, path...) {
+		return true
+	}
+	cond, out := c13StripNot(g.Cond)
+	outcome := g.True
+	if out {
+		outcome = !outcome
+	}
+	if outcome != want {
+		return false
+	}
+	t := tm.Of(cond)
+	for i := len(path) - 1; i >= 0; i-- {
+		if t == nil || t.Op != "field" || t.Name != path[i] {
+			return false
+		}
+		t = t.Args[0]
+	}
+	return t != nil && t.V != nil && sameLoad(t.V, v)
+}
+
+// scanFromZero: l is a loop that visits the indices 0, 1, 2, ... in this order while index < bound,
+// written as a range loop (counter starts at -1 and is advanced before the test) or as a counted loop
+// (counter starts at 0 and is advanced on every way back to the header). idx is the SSA value holding
+// the index of the current iteration inside the body. Exits out of the body (break, return, continue
+// of an outer loop) do not matter: an iteration with index k is reached only after the iterations
+// 0..k-1 went back to the header.
+func scanFromZero(l *Loop) (idx, bound ssa.Value, ok bool) {
+	if l == nil || len(l.Header.Instrs) == 0 || len(l.Header.Succs) != 2 {
+		return nil, nil, false
+	}
+	iff, isIf := l.Header.Instrs[len(l.Header.Instrs)-1].(*ssa.If)
+	if !isIf {
+		return nil, nil, false
+	}
+	var stay bool
+	switch {
+	case l.Blocks[l.Header.Succs[0]] && !l.Blocks[l.Header.Succs[1]]:
+		stay = true
+	case !l.Blocks[l.Header.Succs[0]] && l.Blocks[l.Header.Succs[1]]:
+		stay = false
+	default:
+		return nil, nil, false
+	}
+	x, y, isLess := c13LessThan(iff.Cond, stay)
+	if !isLess {
+		return nil, nil, false
+	}
+	entryAll := func(ph *ssa.Phi, want int64, step func(e ssa.Value) bool) bool {
+		nIn, nEntry := 0, 0
+		for i, e := range ph.Edges {
+			if l.Blocks[l.Header.Preds[i]] {
+				nIn++
+				if !step(e) {
+					return false
+				}
+			} else {
+				nEntry++
+				if k, isK := constInt(e); !isK || k != want {
+					return false
+				}
+			}
+		}
+		return nIn > 0 && nEntry > 0
+	}
+	// counted form
+	if ph, isPhi := x.(*ssa.Phi); isPhi && ph.Block() == l.Header {
+		if entryAll(ph, 0, func(e ssa.Value) bool { return c13IsPlusOne(e, ph) }) {
+			return ph, y, true
+		}
+		return nil, nil, false
+	}
+	// range form: x = ph + 1 computed in the header, ph receives x on every way back
+	if add, isAdd := x.(*ssa.BinOp); isAdd && add.Block() == l.Header {
+		for _, op := range []ssa.Value{add.X, add.Y} {
+			ph, isPhi := op.(*ssa.Phi)
+			if !isPhi || ph.Block() != l.Header || !c13IsPlusOne(add, ph) {
+				continue
+			}
+			if entryAll(ph, -1, func(e ssa.Value) bool { return e == ssa.Value(add) }) {
+				return add, y, true
+			}
+		}
+	}
+	return nil, nil, false
+}
+
+// elemIndexOf: v is the load `*(&xs[i])` (or xs[i] of an array value); returns i.
+func elemIndexOf(v ssa.Value) ssa.Value {
+	switch x := stripCT(v).(type) {
+	case *ssa.UnOp:
+		if ia, ok := x.X.(*ssa.IndexAddr); ok && x.Op == token.MUL {
+			return ia.Index
+		}
+	case *ssa.Index:
+		return x.Index
+	}
+	return nil
+}
+
+// scanGuard: the action runs only after the scan loop L ran to exhaustion; Hits are the edges on
+// which the scan is left from its body (the "found" outcomes).
+type scanGuard struct {
+	L    *Loop
+	Hits []flagEdge
+}
+
+// exhaustedScanBefore finds the scan over `over` (a loop whose header tests i < len(over)) that must
+// have run to exhaustion for `action` to execute. This is the flag-free form of
+//
+//	found := false; for ... { if hit { found = true; break } }; if !found { action }
+//
+// namely `for ... { if hit { continue outer / return } }; action`. Established when non-nil:
+//   - the header of L dominates the action and the action is outside L, so a scan precedes the action;
+//   - from no edge that leaves the body of L (a hit) the action can be reached without passing the header
+//     of L again (flag-sensitive search, so the flag form qualifies too). Hence after the last visit of
+//     the header before the action the loop was left through the header's own exit: the bound was reached.
+//
+// pinned are values the hit conditions speak about (the examined sensor / target): their definitions
+// must lie outside L and dominate its header, so the whole scan - from its entry to the exhaustion -
+// ran for the instance of the value that the action sees (L is a natural loop: it is entered through
+// its header only, and the definitions are not re-executed inside it).
+func (r *Run) exhaustedScanBefore(fn *ssa.Function, tm *Termer, loops []*Loop, action ssa.Instruction, over string, pinned ...ssa.Value) *scanGuard {
+	ab := action.Block()
+	var best *scanGuard
+	for _, l := range loops {
+		if !loopRangesOver(tm, l, over) || l.Blocks[ab] || !l.Header.Dominates(ab) {
+			continue
+		}
+		okPinned := true
+		for _, v := range pinned {
+			if in, isIn := v.(ssa.Instruction); isIn && in.Block() != nil {
+				if l.Blocks[in.Block()] || !in.Block().Dominates(l.Header) {
+					okPinned = false
+				}
+			}
+		}
+		if !okPinned {
+			continue
+		}
+		var blocks []*ssa.BasicBlock
+		for b := range l.Blocks {
+			blocks = append(blocks, b)
+		}
+		sort.Slice(blocks, func(i, j int) bool { return blocks[i].Index < blocks[j].Index })
+		sg := &scanGuard{L: l}
+		for _, b := range blocks {
+			if b == l.Header {
+				continue
+			}
+			for _, s := range b.Succs {
+				if !l.Blocks[s] {
+					sg.Hits = append(sg.Hits, flagEdge{b, s, nil})
+				}
+			}
+		}
+		if len(sg.Hits) == 0 {
+			continue
+		}
+		ok := true
+		for _, h := range sg.Hits {
+			path := FindPath(r.P, PathQuery{Fn: fn, StartEdge: [2]*ssa.BasicBlock{h.From, h.To}, Explored: &r.PathsExplored,
+				Target: func(in ssa.Instruction) bool { return in == action },
+				Avoid:  func(in ssa.Instruction) bool { return in.Block() == l.Header }})
+			if path != nil {
+				ok = false
+				break
+			}
+		}
+		if !ok {
+			continue
+		}
+		// the scan closest to the action
+		if best == nil || best.L.Header.Dominates(l.Header) {
+			best = sg
+		}
+	}
+	return best
+}
+
+// takesEdge: the iteration path walks the CFG edge from->to.
+func (ip *IterPath) takesEdge(from, to *ssa.BasicBlock) bool {
+	for i := 0; i+1 < len(ip.Blocks); i++ {
+		if ip.Blocks[i] == from && ip.Blocks[i+1] == to {
+			return true
+		}
+	}
+	return false
 }
